@@ -70,11 +70,11 @@ macro_rules! slice_concat {
     ($elem_ty:ty, $slice:expr $(,)*) => {{
         const __ARGS_81608BFNA5: &[&[$elem_ty]] = $slice;
         {
-            const LEN: $crate::__::usize = $crate::slice::concat_sum_lengths(__ARGS_81608BFNA5);
+            const __LEN_81608BFNA5: $crate::__::usize = $crate::slice::concat_sum_lengths(__ARGS_81608BFNA5);
 
-            const CONC: [$elem_ty; LEN] = $crate::slice::concat_slices(__ARGS_81608BFNA5);
+            const __CONC_81608BFNA5: [$elem_ty; __LEN_81608BFNA5] = $crate::slice::concat_slices(__ARGS_81608BFNA5);
 
-            CONC
+            __CONC_81608BFNA5
         }
     }};
 }
